@@ -1,6 +1,6 @@
 use crate::{hash_path, user_forc_directory};
 use std::{
-    fs::{create_dir_all, read_dir, remove_file, File},
+    fs::{create_dir_all, hard_link, read_dir, remove_file, File},
     io::{self, Read, Write},
     path::{Path, PathBuf},
 };
@@ -124,17 +124,47 @@ impl PidFileLocking {
 
     /// Locks the given filepath if it is not already locked
     pub fn lock(&self) -> io::Result<()> {
-        self.release()?;
         if let Some(dir) = self.0.parent() {
             // Ensure the directory exists
             create_dir_all(dir)?;
         }
 
-        let mut fs = File::create(&self.0)?;
-        fs.write_all(std::process::id().to_string().as_bytes())?;
+        // Write the pid to a private file first and publish it under the lock file's name with
+        // `hard_link`, which is atomic and fails if the name already exists. Other processes
+        // therefore never observe an empty or half-written lock file (which they would treat as
+        // stale and delete), an existing lock of a live process is never removed, and two
+        // processes cannot both acquire the same lock.
+        let pid = std::process::id() as usize;
+        let tmp_path = self.0.with_extension(format!("{pid}.tmp"));
+        let mut fs = File::create(&tmp_path)?;
+        fs.write_all(pid.to_string().as_bytes())?;
         fs.sync_all()?;
         fs.flush()?;
-        Ok(())
+        drop(fs);
+
+        let mut result = Ok(());
+        // A second attempt is only made after a stale lock file has been removed.
+        for _ in 0..2 {
+            result = match hard_link(&tmp_path, &self.0) {
+                Err(e) if e.kind() == io::ErrorKind::AlreadyExists => {
+                    match self.get_locker_pid() {
+                        Some(owner) if owner == pid => Ok(()),
+                        Some(owner) => Err(io::Error::other(format!(
+                            "Cannot lock the file, it is locked by another process (PID: {owner})"
+                        ))),
+                        // The owner is gone and its lock file has been removed, try again.
+                        None => {
+                            result = Err(e);
+                            continue;
+                        }
+                    }
+                }
+                other => other,
+            };
+            break;
+        }
+        let _ = remove_file(&tmp_path);
+        result
     }
 
     /// Cleans up all stale lock files in the .lsp-locks directory
@@ -148,6 +178,17 @@ impl PidFileLocking {
             let entry = entry?;
             let path = entry.path();
             if let Some(ext) = path.extension().and_then(|ext| ext.to_str()) {
+                if ext == "tmp" {
+                    // `<name>.<pid>.tmp`: left behind if its process died inside `lock()`
+                    let owner = path.file_stem().map(Path::new).and_then(Path::extension);
+                    if let Some(Ok(pid)) = owner.map(|pid| pid.to_string_lossy().parse::<usize>()) {
+                        if !Self::is_pid_active(pid) {
+                            remove_file(&path)?;
+                            cleaned_paths.push(path);
+                        }
+                    }
+                    continue;
+                }
                 if ext == "lock" {
                     if let Ok(mut file) = File::open(&path) {
                         let mut contents = String::new();
